@@ -62,6 +62,10 @@ BY_CHECK = {
         "TLX.OnCode.C05.extract_server_frame_whole_records",
         "TLX.OnCode.C05.extract_client_frame_whole_records",
     ]),
+    "C03": ("TLX.Props.OnCode.C03", [
+        "TLX.OnCode.C03.decrypt_packet_never_raises",
+        "TLX.OnCode.C03.decrypt_packet_never_raises_translated_crypto",
+    ]),
     "C14": ("TLX.Props.OnCode.C14", [
         "TLX.OnCode.C14.split_cipher_suite_sound_complete",
         "TLX.OnCode.C14.cipher_suites_keys",
